@@ -21,6 +21,9 @@ import (
 type ConcScenario struct {
 	Producers [][]int `json:"producers"`
 	Steps     []CStep `json:"steps"`
+	// DrainFirst: at the end of the schedule the queue is closed and the consumer
+	// drained before the still-parked producers are released (see epilogue).
+	DrainFirst bool `json:"drain_first,omitempty"`
 }
 
 // CStep kinds:
@@ -67,12 +70,11 @@ type insCall struct {
 }
 
 type nextCall struct {
-	op       *opRec
-	done     bool
-	item     interface{}
-	dup      uint32
-	err      error
-	recorded bool
+	op   *opRec
+	done bool
+	item interface{}
+	dup  uint32
+	err  error
 }
 
 type simpleCall struct{ done bool }
@@ -406,11 +408,10 @@ func (h *harness) observe(s int) *verr {
 		return newVerr("panic", "step %d: %s", s, panics[0])
 	}
 	// still-parked producers
-	for p, c := range h.ins {
+	for _, c := range h.ins {
 		if c != nil && c.op.Ret < 0 {
 			c.op.Parked[s] = true
 		}
-		_ = p
 	}
 	// queue length at quiescence
 	n := -1
@@ -537,8 +538,12 @@ func runConcBubble(sc *ConcScenario) (concStats, *verr) {
 		}
 	}
 	scenarioSteps := h.h.nSteps
-	// Epilogue (a fixed function of the state): release every producer, release
-	// the consumer, close, and keep taking until the consumer is told "closed".
+	// Epilogue (a fixed function of the state and of sc.DrainFirst): release every
+	// parked producer, release the consumer, close, and keep calling Next until
+	// the consumer is told "closed". With DrainFirst the consumer is closed and
+	// drained *before* the parked producers are released, so that their
+	// insertions (closed check passed before the close) land after the consumer
+	// was already told "closed"; it then calls Next again.
 	epilogue := func() *verr {
 		anyParked := func() bool {
 			for _, ch := range h.parkedIns {
@@ -548,6 +553,34 @@ func runConcBubble(sc *ConcScenario) (concStats, *verr) {
 			}
 			return false
 		}
+		closeAndDrain := func(mark int) *verr {
+			told := func() bool { return h.cons == nil && h.lastNextErr == errClosed && h.lastNextRet >= mark }
+			if h.parkedCons != nil || h.armCons {
+				if v := h.exec(CStep{K: "crel"}); v != nil {
+					return v
+				}
+			}
+			if h.h.firstClose < 0 {
+				if v := h.exec(CStep{K: "close"}); v != nil {
+					return v
+				}
+			}
+			calls := 0
+			for ; calls < h.accepted+3 && !told(); calls++ {
+				if v := h.exec(CStep{K: "take"}); v != nil {
+					return v
+				}
+			}
+			if told() {
+				return nil
+			}
+			return newVerr("no-closed-report", "after Close() the consumer called Next %d more times (accepted insertions: %d) without being told the queue is closed", calls, h.accepted)
+		}
+		if sc.DrainFirst && anyParked() {
+			if v := closeAndDrain(h.h.nSteps); v != nil {
+				return v
+			}
+		}
 		for i := 0; i < len(sc.Producers) && anyParked(); i++ {
 			// lowest-numbered parked producer first
 			if v := h.exec(CStep{K: "rel", P: 0}); v != nil {
@@ -555,27 +588,7 @@ func runConcBubble(sc *ConcScenario) (concStats, *verr) {
 			}
 		}
 		// from here on nothing can be inserted any more: a "closed" report is final
-		mark := h.h.nSteps
-		told := func() bool { return h.cons == nil && h.lastNextErr == errClosed && h.lastNextRet >= mark }
-		if h.parkedCons != nil || h.armCons {
-			if v := h.exec(CStep{K: "crel"}); v != nil {
-				return v
-			}
-		}
-		if h.h.firstClose < 0 {
-			if v := h.exec(CStep{K: "close"}); v != nil {
-				return v
-			}
-		}
-		for k := 0; k < h.accepted+3 && !told(); k++ {
-			if v := h.exec(CStep{K: "take"}); v != nil {
-				return v
-			}
-		}
-		if told() {
-			return nil
-		}
-		return newVerr("no-closed-report", "after Close() the consumer called Next %d times (accepted insertions: %d) without being told the queue is closed", h.accepted+3, h.accepted)
+		return closeAndDrain(h.h.nSteps)
 	}
 	if v := epilogue(); v != nil {
 		v.msg += "\nhistory:" + h.h.dump()
@@ -648,7 +661,12 @@ func (h *harness) collect(scenarioSteps int) {
 			break
 		}
 	}
-	toldAt := -1
+	toldAt := -1 // step of the first "closed" report
+	for _, o := range hist.ops {
+		if o.Kind == "next" && o.Err == errClosed && (toldAt < 0 || o.Ret < toldAt) {
+			toldAt = o.Ret
+		}
+	}
 	for _, o := range hist.ops {
 		switch o.Kind {
 		case "insert":
@@ -710,13 +728,10 @@ func (h *harness) collect(scenarioSteps int) {
 				if hist.closedBy(o.Ret) {
 					h.label("delivery-after-close")
 				}
-				if toldAt >= 0 {
+				if toldAt >= 0 && o.Ret > toldAt {
 					h.label("delivery-after-closed-report")
 				}
 			case errClosed:
-				if toldAt < 0 {
-					toldAt = o.Ret
-				}
 				if woken && closeSteps[o.Ret] {
 					h.label("waiting-consumer-woken-by-close")
 				}
@@ -814,6 +829,7 @@ func genConcScenario(t *rapid.T) *ConcScenario {
 	sc.Steps = append(rapid.SliceOfN(open, 0, 12).Draw(t, "before1"), sc.Steps...)
 	sc.Steps = append(rapid.SliceOfN(open, 0, 12).Draw(t, "before0"), sc.Steps...)
 	sc.Steps = append(sc.Steps, rapid.SliceOfN(all, 0, 12).Draw(t, "after")...)
+	sc.DrainFirst = rapid.Bool().Draw(t, "drain_first")
 	return sc
 }
 
@@ -824,16 +840,31 @@ func TestC11Concurrent(t *testing.T) {
 	}
 	rec := vstat.New("C11", "concurrent")
 	failedOnce := false
+	// The code under test blocks in a select whose choice among ready cases is
+	// made by the Go runtime, so the same scenario can pass in one run and fail
+	// in the next (e.g. "closed" and "inserted" both ready). The search runs
+	// every generated case once. After the first failure (i.e. while rapid
+	// re-runs and shrinks) a candidate is run up to shrinkTries times and its
+	// verdict is remembered, because rapid gives up ("flaky") as soon as one
+	// input yields two different outcomes.
+	memo := map[uint64]error{}
 	rec.RunRapid(t, func(rt *rapid.T) {
 		sc := genConcScenario(rt)
 		rec.Current(sc)
-		st, err := runConc(t, sc)
-		rec.Case(sc, st.nontrivial, st.labelList()...)
-		// The code under test blocks in a select whose choice among ready cases is
-		// made by the Go runtime; while shrinking, give each candidate a few
-		// tries so that a failure that depends on that choice keeps reproducing.
-		for i := 0; err == nil && failedOnce && i < shrinkTries-1; i++ {
-			_, err = runConc(t, sc)
+		var st concStats
+		var err error
+		key := vstat.Hash(sc)
+		if prev, seen := memo[key]; failedOnce && seen {
+			err = prev
+		} else {
+			st, err = runConc(t, sc)
+			rec.Case(sc, st.nontrivial, st.labelList()...)
+			for i := 0; err == nil && failedOnce && i < shrinkTries-1; i++ {
+				_, err = runConc(t, sc)
+			}
+			if failedOnce || err != nil {
+				memo[key] = err
+			}
 		}
 		if err != nil {
 			failedOnce = true
